@@ -148,6 +148,9 @@ type World struct {
 	// warm[as index][IA] = epoch in which a signature of IA last verified at that AS
 	warm    map[int]map[addr.IA]int
 	epochNo int
+
+	inOriginate bool
+	infra       string
 }
 
 // viol reports a violation unless its signature is a listed known finding (then the run goes on).
